@@ -99,6 +99,10 @@ def universe() -> List[Tuple[str, V]]:
         # what a source annotation can be besides a class or a typing construct (kept in the stub under the default strategy)
         ("NewType of another module (a source annotation)", newtype("UserId", "pkg.other", INT)),
         ("List[NewType of another module]", gen("List", newtype("UserId", "pkg.other", INT))),
+        # classes that say they live in `builtins` but are not names of the builtins module (the class of a module object, of
+        # NotImplemented, of a class's __dict__ proxy, of dict.keys()): get_type records them for such values
+        ("class of a module object (builtins.module)", cls("builtins", "module")), ("class of NotImplemented", cls("builtins", "NotImplementedType")),
+        ("List[class of dict.keys()]", gen("List", cls("builtins", "dict_keys"))),
         # modules whose short names happen to be fragments of other words ("ui" and "ins" occur inside "builtins", "t" inside "typing")
         ("class of a module called ui", C("ui", "Window")), ("Dict[str, class of a module called ins]", gen("Dict", STR, C("ins", "Policy"))),
         ("TypedDict with a field of a class of module ui", anon_td({"owner": C("ui", "Window")})),
